@@ -2,3 +2,4 @@ pub mod alpha;
 pub mod docs;
 pub mod lex;
 pub mod sentences;
+pub mod spell;
